@@ -159,12 +159,116 @@ def run(facts, rep, tier):
         rep.ob("C06.O", "%s|output" % short, good,
                "the node marked as output is the one the old output is mapped to", b.loc())
     rep.floor("C06.A", "add_node_with_type sites in the copying passes", n_sites, 5)
+    annotation_target_paths(facts, rep, vs)
+    key_keeps_operand_order(facts, rep, vs)
+    from . import C02
+    C02.optimizer_keeps_transfers(facts, _Sub(rep, "C06"))
     typed_callers(facts, rep)
     chain(facts, rep)
     cancellation(facts, rep, vidx)
     # shared clauses
     tb = C04.tables(facts)
     C04.dangling(facts, _Sub(rep, "C06"), vs, vidx, tb)
+
+
+# operations whose result does not depend on the order of their two operands (elementwise, broadcasting is symmetric)
+COMMUTATIVE = {"Add": "elementwise modular addition", "Multiply": "elementwise modular multiplication"}
+REORDER_MUT = ("::sort", "::sort_unstable", "::sort_by", "::sort_by_key", "::sort_unstable_by", "::sort_unstable_by_key",
+               "::reverse", "::swap", "::dedup", "::retain", "::rotate_left", "::rotate_right")
+
+
+def key_keeps_operand_order(facts, rep, vs):
+    """C06.K: the structural key of the duplicates pass keeps the dependency order except for commutative operations"""
+    rep.rule("C06.K", "the de-duplication key lists the dependency ids in operand order: under every Operation variant that is not "
+                      "commutative no reordering/de-duplicating call on the id vector is executable in NodeKey::new or the pass")
+    rep.tables["commutative_operations"] = COMMUTATIVE
+    for fname in ("optimizer::duplicates_optimizer::NodeKey::new", PASSES["duplicates"]):
+        b = facts.body(fname)
+        if not rep.anchor("C06.K", fname, b):
+            continue
+        sites = [bb for bb, t in b.calls() if (callee_name(t) or "").endswith(REORDER_MUT)
+                 and (callee_name(t) or "").startswith(("std::", "core::", "alloc::", "<std::", "<[")) and not b.is_cleanup(bb)]
+        bad = []
+        if sites:
+            for idx, name in vs:
+                if name in COMMUTATIVE:
+                    continue
+                res = V.Interp(facts, idx).run(b)
+                if any(s_ in res.blocks for s_ in sites):
+                    bad.append(name)
+        rep.ob("C06.K", fname.split("::")[-2] + "::" + fname.split("::")[-1], not bad,
+               "no reordering of dependency ids (%d reordering call site(s), all confined to commutative operations)" % len(sites)
+               if not bad else "dependency ids are reordered for non-commutative operation(s) %s: f(a,b) and f(b,a) are merged" % bad[:8],
+               b.loc(sites[0]) if sites else b.loc())
+
+
+def annotation_target_paths(facts, rep, vs):
+    """C06.A (path form): within one loop iteration, if annotations were put on node X and afterwards another node Y
+    (not derived from X) is chosen for the mapping, the markers end up on a node that is not the mapped one"""
+    for short, fname in sorted(PASSES.items()):
+        b = facts.body(fname)
+        if b is None:
+            continue
+        ins = [bb for bb, t in b.calls() if (callee_name(t) or "").endswith("ContextMappings::insert_node") and not b.is_cleanup(bb)]
+        addann = [bb for bb, t in b.calls() if callee_name(t) == "graphs::Node::add_annotation" and not b.is_cleanup(bb)]
+        if not ins or not addann:
+            continue
+        lp = None
+        for h, blocks in C.loops(b):
+            if ins[0] in blocks and (lp is None or len(blocks) < len(lp[1])):
+                lp = (h, blocks)
+        if lp is None:
+            continue
+        h, blocks = lp
+        bad = {}
+        models = {}
+        nk = facts.body("optimizer::duplicates_optimizer::NodeKey::new")
+        if nk is not None:
+            models["optimizer::duplicates_optimizer::NodeKey::new"] = \
+                lambda interp, body, bb_, t_, args, nk=nk: interp.run_callee(nk, [V.SUBJ, V.TOP])
+        checked = 0
+        for idx, vname in vs:
+            res = V.Interp(facts, idx, call_models=models).run(b)
+            live = res.normal_blocks()
+            removed = {(x, y) for x, y in C.edges(b) if (x, y) not in res.edges}
+            fl = Flow(facts, b, EXTRA, live_blocks=live)
+            for a in addann:
+                if a not in live:
+                    continue
+                ta = b.term(a)
+                if not any(o[0] == "call" and o[2] == "graphs::Node::get_annotations" for o in fl.origins(ta["args"][1], (a, None))):
+                    continue
+                recv = {o for o in fl.origins(ta["args"][0], (a, None)) if o[0] == "call"}
+                for i in ins:
+                    if i not in live:
+                        continue
+                    op = b.term(i)["args"][2]
+                    if op[0] == "k":
+                        continue
+                    l = fl.root_of(op[1][0])
+                    for di in fl.reaching_defs(l, (i, None)):
+                        _, db, dj = fl.defs[di]
+                        if db < 0 or db not in live:
+                            continue
+                        checked += 1
+                        if dj is None:
+                            dor = fl._call_origins(db, (), ())
+                        else:
+                            dor = fl._rvalue_origins(b.stmts(db)[dj][2], (), (db, dj), ())
+                        dor = {o for o in dor if o[0] == "call"}
+                        if dor & recv or not dor:
+                            continue
+                        # path a -> def -> insert within one iteration
+                        r1 = C.reachable_after(b, a, removed_edges=removed, removed_blocks={h})
+                        if db in r1 or db == a:
+                            r2 = C.reachable(b, [db], removed_edges=removed, removed_blocks={h})
+                            if i in r2:
+                                bad.setdefault(vname, sorted(set(o[2].split("::")[-1] for o in dor)))
+        rep.ob("C06.A", "%s|annotated-node-is-mapped-node" % short, not bad,
+               "on every path of one iteration the node that received the annotations is the node inserted into the mapping "
+               "(%d (variant, definition) pairs examined)" % checked if not bad else
+               "annotations are put on one node but another node (from %s) is then mapped, e.g. under Operation::%s: "
+               "the markers are left on a node that the output does not use" % (list(bad.values())[0], sorted(bad)[:6]), b.loc(addann[0]))
 
 
 class _Sub:
